@@ -350,10 +350,10 @@ def check(ctx):
     ctx.rule("R10.2", "swap(left, right) is typed left@right -> right@left on distinct atoms in all emptiness cases; the base case scans")
     ctx.rule("R10.3", "permutation: the layer and `perm` are rearranged by the same cut-and-paste; guards refuse non-permutations")
     ctx.rule("R10.4", "each diagram class passes its own Diagram and Swap classes to the generic construction")
-    check_parametric(ctx)
-    check_swap(ctx)
-    check_permutation(ctx)
-    check_factories(ctx)
+    ctx.attempt(check_parametric, ctx)
+    ctx.attempt(check_swap, ctx)
+    ctx.attempt(check_permutation, ctx)
+    ctx.attempt(check_factories, ctx)
     ctx.rule("R10.5", "the swap of tensors permutes the axes as requested (C08 R08.4): the tensor-level instance of this property")
     ctx.depend("R10.5", "C08", "Tensor.swap(left, right) moves the axes of `left` past those of `right`", rules={"R08.4"}, mod="discopy.tensor")
     ctx.floor("R10.1", 2)
